@@ -77,6 +77,16 @@ P = {
         note="Draw matrices are oracle inputs; argsort tie-breaking in the uncorrelated mode is not modelled (theorems hold for every choice).",
         tech="Coq proof (sum bounds over contests, fold invariant over op histories) + injection / history correspondence",
         ref="DESIGN.md section 5 C08"),
+    "C04": dict(
+        text="Theorems for every calibration set (any scores, any non-negative weights, ties, negative corrections) and every level: inside the widened interval iff score <= correction; the correction's weighted share exceeds q and no smaller value's does; it exists whenever q < 1; robust >= both corrections; the step to vote space never pushes an integer truth outside; the source's quantile level is alpha(1+1/n_cal). The probabilistic clause is proved as its finite counting core: among N scores at least alpha*N are covered by the correction computed from the other N-1 (ties included), for every alpha with alpha*N < N-1. Correspondence: direct calls of the weighted-correction routine incl. exact ties, full runs with captured fits.",
+        note="Lower/upper fits are oracle inputs; coverage probability follows from the counting theorem only under exchangeability and equal baseline size (an assumption of the property).",
+        tech="Coq proof (weighted-quantile invariant, counting argument over multisets) + differential correspondence with captured solver output",
+        ref="DESIGN.md section 5 C04"),
+    "C05": dict(
+        text="Theorems: a point with less than half the weight strictly on either side is the unique minimiser of the weighted absolute loss; hence for EVERY solver returning a minimiser of the intercept-only median fit the coefficient is the weighted median m and each nonreporting unit is predicted at rhe(max((1+m)*baseline, partial count)). Correspondence: runs without features; m computed inside Coq from the raw input; captured coefficient and every prediction compared; non-unique medians generated on purpose.",
+        note="Solver optimality is an oracle assumption, checked per run on the captured coefficient.",
+        tech="Coq proof (convexity argument on weighted absolute loss) + differential correspondence",
+        ref="DESIGN.md section 5 C05"),
 }
 
 REASON_NOT_BUILT = "check not built yet in this development stage (planned: see DESIGN.md section 5)"
